@@ -15,6 +15,7 @@
 #include "util/ByteBuffer.h"
 #include "system/SetupSystem.h"
 #include "util/ObjectPool.h"
+#include "dataio/ByteBufferDataIO.h"
 #include <utility>
 #include "msggen.h"
 #include "vh.h"
@@ -171,6 +172,95 @@ static void CheckTypeFilter(const Message & m, const char * stage)
    }
 }
 
+// ---- serialisation and parse entry points as a generator dimension -------------------------------------------------------------------
+// Every public way to serialise a Message (Message.h, Flattenable.h, ByteBuffer.h, DataFlattener.h) must write exactly FlattenedSize()
+// bytes, the same bytes as every other way; every public way to parse them must give the same Message.
+enum { SER_FLATTEN = 0, SER_FLATTENTOBYTES_NOSIZE, SER_TOBYTEBUFFER_REF, SER_TOBYTEBUFFER_OBJECT, SER_COPYTO_BYTEBUFFER, SER_DATAIO, SER_FLATTENED_BYTEBUFFER_FROM_POOL, SER_WRITEFLAT_LENGTH_PREFIX, SER_COPYTO_FLATTENABLE, SER_DATAFLATTENER_ON_BYTEBUFFER, NUM_SER };
+static const char * const kSerName[NUM_SER] = {"flatten_dataflattener", "flattentobytes_without_size", "flattentobytebuffer_ref", "flattentobytebuffer_object", "copyto_bytebuffer", "flattentodataio", "getflattenedbytebufferfrompool", "writeflatwithlengthprefix", "copyto_other_flattenable", "dataflattener_on_bytebuffer"};
+enum { PAR_FROMBYTES = 0, PAR_UNFLATTEN_DATAUNFLATTENER, PAR_FROMBYTEBUFFER_OBJECT, PAR_FROMBYTEBUFFER_REF, PAR_DATAIO_WITH_SIZE, PAR_DATAIO_SIZE_HEADER, PAR_COPYFROM_BYTEBUFFER, PAR_READFLAT, PAR_READFLAT_LENGTH_PREFIX, NUM_PAR };
+static const char * const kParName[NUM_PAR] = {"unflattenfrombytes", "unflatten_dataunflattener", "unflattenfrombytebuffer_object", "unflattenfrombytebuffer_ref", "unflattenfromdataio_given_size", "unflattenfromdataio_size_header", "copyfrom_bytebuffer", "dataunflattener_readflat", "dataunflattener_readflatwithlengthprefix"};
+
+// a destination ByteBuffer in one of the states a re-used buffer can be in, holding old content (another Message's bytes, or filler)
+static const char * PrepareDestination(vh::Rng & r, ByteBuffer & d, uint32 n, const Message & prev)
+{
+   const char * state; uint32 len;
+   switch (r.R(7)) {
+   case 0: state = "empty"; len = 0; break;
+   case 1: state = "shorter"; len = n > 1 ? 1 + r.R(n - 1) : 0; break;
+   case 2: state = "exact"; len = n; break;
+   case 3: state = "longer_by_one"; len = n + 1; break;
+   case 4: state = "longer"; len = n + 1 + r.R(300); break;
+   case 5: state = "much_longer"; len = 2 * n + 1000 + r.R(5000); break;
+   default: {   // what re-use looks like: the same buffer received another Message just before
+      if (prev.FlattenToByteBuffer(d).IsError()) HarnessAbort("FlattenToByteBuffer(prev)");
+      const uint32 pl = d.GetNumBytes(); return pl > n ? "longer_holding_another_message" : (pl == n ? "exact" : (pl == 0 ? "empty" : "shorter_holding_another_message")); }
+   }
+   if (d.SetNumBytes(len, false).IsError()) HarnessAbort("SetNumBytes");
+   if (len) memset(d.GetBuffer(), 0xEE, len);
+   return len == 0 ? "empty" : state;
+}
+
+// serialises (M) through entry point (how); (want, n) = the bytes of the exact-size FlattenToBytes(buf, n).  One violation at most.
+static void SerialiseVia(int how, vh::Rng & r, const Message & M, const Message & prev, const uint8 * want, uint32 n)
+{
+   vh::note(std::string("serialise via ") + kSerName[how] + ": " + caseDesc);
+   vh::stat(std::string("ser_") + kSerName[how]);
+   const uint8 * got = NULL; uint32 gotLen = 0; std::string where = kSerName[how];
+   uint8 * heap = NULL; ByteBufferRef ref; ByteBuffer stack; Blob blob(B_MESSAGE_TYPE, std::string("old content of the blob"));
+   switch (how) {
+   case SER_FLATTEN: heap = (uint8 *)malloc(n); if (!heap) HarnessAbort("malloc"); M.Flatten(DataFlattener(heap, n)); got = heap; gotLen = n; break;
+   case SER_FLATTENTOBYTES_NOSIZE: heap = (uint8 *)malloc(n); if (!heap) HarnessAbort("malloc"); M.FlattenToBytes(heap); got = heap; gotLen = n; break;
+   case SER_TOBYTEBUFFER_REF: ref = M.FlattenToByteBuffer(); if (ref() == NULL) { Fail("entrypoint|null", where + " returned a NULL reference"); return; } got = ref()->GetBuffer(); gotLen = ref()->GetNumBytes(); break;
+   case SER_TOBYTEBUFFER_OBJECT: case SER_COPYTO_BYTEBUFFER: {
+      const bool pooled = r.R(2) != 0; if (pooled) { ref = GetByteBufferFromPool(0); if (ref() == NULL) HarnessAbort("GetByteBufferFromPool"); }
+      ByteBuffer & d = pooled ? *ref() : stack;
+      const char * state = PrepareDestination(r, d, n, prev);
+      vh::stat(std::string(how == SER_TOBYTEBUFFER_OBJECT ? "flatten_into_" : "copyto_into_") + state + "_buffer"); vh::stat(pooled ? "destination_buffer_pooled" : "destination_buffer_on_stack");
+      where += std::string(" into a ") + state + (pooled ? " pooled" : " stack") + " ByteBuffer";
+      const status_t st = how == SER_TOBYTEBUFFER_OBJECT ? M.FlattenToByteBuffer(d) : (r.R(2) ? M.CopyTo(d) : d.CopyFrom(M));
+      if (st.IsError()) { Fail("entrypoint|status", where + ": " + st()); return; }
+      got = d.GetBuffer(); gotLen = d.GetNumBytes();
+   } break;
+   case SER_DATAIO: {
+      const bool hdr = r.R(2) != 0; ref = GetByteBufferFromPool(0); if (ref() == NULL) HarnessAbort("GetByteBufferFromPool");
+      ByteBufferDataIO dio(ref); const status_t st = M.FlattenToDataIO(dio, hdr);
+      if (st.IsError()) { Fail("entrypoint|status", where + ": " + st()); return; }
+      got = ref()->GetBuffer(); gotLen = ref()->GetNumBytes(); where += hdr ? " with size header" : " without size header";
+      if (hdr) { if (gotLen < 4 || ((uint32)got[0] | ((uint32)got[1] << 8) | ((uint32)got[2] << 16) | ((uint32)got[3] << 24)) != n) { Fail("entrypoint|size-header", where + vh::fmt(": %u bytes written, header ", gotLen) + vh::hex(got, gotLen, 4) + vh::fmt(", FlattenedSize() %u", n)); return; } got += 4; gotLen -= 4; }
+   } break;
+   case SER_FLATTENED_BYTEBUFFER_FROM_POOL: ref = r.R(2) ? GetFlattenedByteBufferFromPool(M) : GetFlattenedByteBufferFromPool(*GetByteBufferPool(), M); if (ref() == NULL) { Fail("entrypoint|null", where + " returned a NULL reference"); return; } got = ref()->GetBuffer(); gotLen = ref()->GetNumBytes(); break;
+   case SER_WRITEFLAT_LENGTH_PREFIX: {
+      heap = (uint8 *)malloc(n + 12); if (!heap) HarnessAbort("malloc");
+      { DataFlattener flat(heap, n + 12); flat.WriteInt32(0x11223344); flat.WriteFlatWithLengthPrefix(M); flat.WriteInt32(0x55667788); }
+      const uint32 pre = (uint32)heap[4] | ((uint32)heap[5] << 8) | ((uint32)heap[6] << 16) | ((uint32)heap[7] << 24);
+      if (pre != n || memcmp(heap, "\x44\x33\x22\x11", 4) != 0 || memcmp(heap + 8 + n, "\x88\x77\x66\x55", 4) != 0) { Fail("entrypoint|length-prefix", where + vh::fmt(": length prefix %u, FlattenedSize() %u, or the neighbouring words were overwritten", pre, n)); free(heap); return; }
+      got = heap + 8; gotLen = n;
+   } break;
+   case SER_COPYTO_FLATTENABLE: { const status_t st = r.R(2) ? M.CopyTo(blob) : blob.CopyFrom(M); if (st.IsError()) { Fail("entrypoint|status", where + ": " + st()); return; } got = (const uint8 *)blob.Bytes().data(); gotLen = (uint32)blob.Bytes().size(); } break;
+   default: { ref = GetByteBufferFromPool(n); if (ref() == NULL) HarnessAbort("GetByteBufferFromPool"); if (r.R(2)) M.Flatten(DataFlattener(*ref())); else M.Flatten(DataFlattener(ref)); got = ref()->GetBuffer(); gotLen = ref()->GetNumBytes(); } break;
+   }
+   if (gotLen != n) Fail("entrypoint|size", where + vh::fmt(": %u bytes in the result, FlattenedSize() is %u", gotLen, n) + " | " + FirstDiff(want, n, got, gotLen));
+   else if (n && memcmp(got, want, n) != 0) Fail("entrypoint|bytes", where + ": " + FirstDiff(want, n, got, gotLen));
+   if (heap) free(heap);
+}
+
+// parses (buf, n) into (target) through entry point (how)
+static status_t ParseVia(int how, Message & target, const uint8 * buf, uint32 n)
+{
+   vh::stat(std::string("par_") + kParName[how]);
+   switch (how) {
+   case PAR_FROMBYTES: return target.UnflattenFromBytes(buf, n);
+   case PAR_UNFLATTEN_DATAUNFLATTENER: { DataUnflattener u(buf, n); const status_t st = target.Unflatten(u); if (st.IsOK() && u.GetNumBytesAvailable() != 0) { vh::stat("observed_unflatten_left_bytes_unread"); } return st; }
+   case PAR_FROMBYTEBUFFER_OBJECT: { ByteBuffer b(n, buf); return target.UnflattenFromByteBuffer(b); }
+   case PAR_FROMBYTEBUFFER_REF: { ConstByteBufferRef b = GetByteBufferFromPool(n, buf); if (b() == NULL) HarnessAbort("GetByteBufferFromPool"); return target.UnflattenFromByteBuffer(b); }
+   case PAR_DATAIO_WITH_SIZE: { ByteBufferRef b = GetByteBufferFromPool(n, buf); if (b() == NULL) HarnessAbort("GetByteBufferFromPool"); ByteBufferDataIO dio(b); return target.UnflattenFromDataIO(dio, (int32)n); }
+   case PAR_DATAIO_SIZE_HEADER: { ByteBufferRef b = GetByteBufferFromPool(n + 4); if (b() == NULL) HarnessAbort("GetByteBufferFromPool"); uint8 * p = b()->GetBuffer(); p[0] = (uint8)n; p[1] = (uint8)(n >> 8); p[2] = (uint8)(n >> 16); p[3] = (uint8)(n >> 24); memcpy(p + 4, buf, n); ByteBufferDataIO dio(b); return target.UnflattenFromDataIO(dio, -1); }
+   case PAR_COPYFROM_BYTEBUFFER: { ByteBuffer b(n, buf); return target.CopyFrom(b); }   // Message::CopyFromImplementation -> Flattenable's flatten-and-unflatten default
+   case PAR_READFLAT: { DataUnflattener u(buf, n); return u.ReadFlat(target); }
+   default: { std::vector<uint8> v(n + 8); v[0] = (uint8)n; v[1] = (uint8)(n >> 8); v[2] = (uint8)(n >> 16); v[3] = (uint8)(n >> 24); memcpy(&v[4], buf, n); memcpy(&v[4 + n], "\x01\x02\x03\x04", 4); DataUnflattener u(&v[0], n + 8); const status_t st = u.ReadFlatWithLengthPrefix(target); if (st.IsOK() && u.ReadInt32() != 0x04030201u) return B_LOGIC_ERROR; return st; }
+   }
+}
+
 // steps 3-5 for one parsed object (a fresh one, or a used target)
 static void CheckParsed(const Message & M, const Message & ref, bool nan, uint32_t nonflat, const Message & p, const uint8 * buf, uint32 n, const char * stage)
 {
@@ -214,10 +304,15 @@ static void CheckRoundTrip(const Message & M, const Message & prev, uint64_t sal
    // 7
    { const uint8 * p = buf; std::string why; if (!Layout(p, buf + n, M, why) || p != buf + n) Fail("layout|" + std::string(why.empty() ? "trailing-bytes" : "mismatch"), (why.empty() ? vh::fmt("%ld trailing bytes", (long)(buf + n - p)) : why) + " | first bytes " + vh::hex(buf, n, 96)); else vh::stat("layout_walks_ok"); }
    if (!caseBad) CheckTypeFilter(M, "original");
-   // 2 fresh object
-   vh::note("unflatten: " + caseDesc);
-   Message m2; status_t r = m2.UnflattenFromBytes(buf, n);
-   if (r.IsError()) Fail("parse|status", std::string("UnflattenFromBytes of Flatten's own output: ") + r() + " | first bytes " + vh::hex(buf, n, 96));
+   // 1b other serialisation entry points, PRNG-chosen: the re-usable-destination form always, two of the others
+   vh::Rng er(salt ^ 0x5e71a11e5ULL);
+   if (!caseBad) SerialiseVia(SER_TOBYTEBUFFER_OBJECT, er, M, prev, buf, n);
+   for (int i = 0; i < 2 && !caseBad; i++) SerialiseVia((int)er.R(NUM_SER), er, M, prev, buf, n);
+   // 2 fresh object, through a PRNG-chosen parse entry point
+   const int parseHow = (int)er.R(NUM_PAR);
+   vh::note(std::string("unflatten via ") + kParName[parseHow] + ": " + caseDesc);
+   Message m2; status_t r = ParseVia(parseHow, m2, buf, n);
+   if (r.IsError()) Fail("parse|status", std::string(kParName[parseHow]) + " of Flatten's own output: " + r() + " | first bytes " + vh::hex(buf, n, 96));
    const bool nan = ContainsNaN(M); const uint32_t nonflat = CountNonFlattenable(M);
    if (nan) vh::stat("msgs_with_nan"); if (nonflat) vh::stat("msgs_with_nonflattenable_fields");
    MessageRef stripped; const Message * ref = &M;
@@ -260,8 +355,9 @@ static void CheckRoundTrip(const Message & M, const Message & prev, uint64_t sal
       const uint32 had = target.GetNumNames(), comes = m2.GetNumNames();
       vh::stat(std::string("used_target_") + kind);
       if (had > 0) { vh::stat("used_target_nonempty"); if (comes == 0) vh::stat("used_target_nonempty_incoming_empty"); else if (had > comes) vh::stat("used_target_had_more_fields"); else if (had < comes) vh::stat("used_target_had_fewer_fields"); }
-      r = target.UnflattenFromBytes(buf, n);
-      if (r.IsError()) Fail("reused|parse-status", std::string("UnflattenFromBytes into an object that held ") + kind + " content: " + r());
+      const int how2 = (int)er.R(NUM_PAR);
+      r = ParseVia(how2, target, buf, n);
+      if (r.IsError()) Fail("reused|parse-status", std::string(kParName[how2]) + " into an object that held " + kind + " content: " + r());
       else CheckParsed(M, *ref, nan, nonflat, target, buf, n, "reused");
       if (!caseBad) (void)Same(m2, target, false, "reused");
    }
@@ -586,6 +682,12 @@ static void Regress()
      uint32 t = 0, n = 9; Expect(!m.HasName("a") && m.GetInfo("b", &t, &n).IsOK() && n == 0, "zero-item-field-construction", "ShareName + RemoveData through the other name: expected the sharing field to stay, empty (if this fails the library now cleans it up: adjust the witness)"); Reg("zero-item int32 field", m);
      Message s(2), l; MUST(s.AddString("s", "x")); MUST(s.AddString("s", "y")); MUST(s.AddMessage("m", GetMessageFromPool(1))); MUST(s.AddMessage("m", GetMessageFromPool(2))); l.BecomeLightweightCopyOf(s); for (int i = 0; i < 2; i++) { MUST(l.RemoveData("s", 0)); MUST(l.RemoveData("m", 0)); } MUST(s.AddPointer("p", &s)); Reg("zero-item string and Message fields (source of a lightweight copy)", s);
      MUST(s.AddString("s", "again")); Reg("zero-item field grown again", s); }
+   { // seeded change C01-5: FlattenToByteBuffer(ByteBuffer &) into a re-used buffer that is currently longer ("On successful return, (outBuf) will contain (this->FlattenedSize()) bytes")
+     Message big(1); for (int i = 0; i < 40; i++) MUST(big.AddInt64("many", i)); Message little(2); MUST(little.AddInt8("x", 1));
+     ByteBuffer reused; MUST(big.FlattenToByteBuffer(reused)); const bool okBig = reused.GetNumBytes() == big.FlattenedSize(); MUST(little.FlattenToByteBuffer(reused));
+     Expect(okBig && reused.GetNumBytes() == little.FlattenedSize() && BytesOf(little) == std::vector<uint8>(reused.GetBuffer(), reused.GetBuffer() + reused.GetNumBytes()), "flatten-into-longer-reused-buffer", "FlattenToByteBuffer(buf) of a small Message into a buffer that held a bigger one must leave exactly FlattenedSize() bytes");
+     MUST(big.CopyTo(reused)); MUST(little.CopyTo(reused)); Expect(reused.GetNumBytes() == little.FlattenedSize(), "copyto-longer-reused-buffer", "CopyTo(ByteBuffer) into a longer re-used buffer");
+     Reg("small Message after a big one", little); }
    { // SwapName / SwapContents / by-value FindMessage
      Message a(1), b(2); MUST(a.AddInt32("both", 1)); MUST(a.AddString("onlyA", "x")); MUST(b.AddString("both", "s")); MUST(b.AddString("both", "t")); MUST(b.AddDouble("onlyB", 2.0));
      MUST(a.SwapName("both", b)); MUST(a.SwapName("onlyA", b)); MUST(b.SwapName("onlyB", a)); Expect(a.SwapName("nowhere", b).IsError(), "swapname-status", "SwapName of a field in neither Message must fail");
